@@ -62,3 +62,38 @@ CUSTOM_REGISTRY.register_node_traverser(
     flatten_fn=lambda b: (tuple(b.items), None),
     unflatten_fn=lambda values, _: CustomBox(values),
     path_elements_fn=lambda b: tuple(daglish.Index(i) for i in range(len(b.items))))
+
+
+class LateBox:
+  """A container type whose traverser is registered LATE (register_latebox()), after values of
+  the type have already been seen by fiddle as opaque leaves: lookup caches must not keep the
+  stale "not traversable" answer."""
+
+  def __init__(self, items):
+    self.items = list(items)
+
+  @property
+  def vt_bound(self):
+    return {'items': self.items}
+
+  def __eq__(self, other):          # structural, like a dataclass
+    return type(other) is LateBox and self.items == other.items
+
+  __hash__ = None
+
+  def __repr__(self):
+    return f'LateBox({self.items!r})'
+
+
+LATEBOX_REGISTERED = [False]
+
+
+def register_latebox():
+  if LATEBOX_REGISTERED[0]:
+    return
+  daglish.register_node_traverser(
+      LateBox,
+      flatten_fn=lambda b: (tuple(b.items), len(b.items)),
+      unflatten_fn=lambda values, _: LateBox(values),
+      path_elements_fn=lambda b: tuple(daglish.Index(i) for i in range(len(b.items))))
+  LATEBOX_REGISTERED[0] = True
